@@ -110,6 +110,9 @@ pub fn run(ctx: &mut Ctx) {
     // ---- streams ----
     let n = ctx.n(300_000, 6_000_000);
     grammar_stream(ctx, &cfg, n, 5);
+    let nr = ctx.n(4_000, 80_000);
+    realistic_stream(ctx, &cfg, nr, 6);
+    ctx.require("stream:realistic", 1_000);
     skeleton_stream(ctx, &cfg, if quick { 3 } else { 5 });
     let nb = ctx.n(1_600, 24_000);
     boundary_stream(ctx, &cfg, nb);
